@@ -124,6 +124,10 @@ pub struct C08 {
     /// (lock-step loops of ranks with uneven shards, `next(it, None)`): the stream stays ended
     #[serde(default)]
     pub poll_after_end: bool,
+    /// every instance except the reference ones calls set_fast_forward before set_epoch (the two
+    /// setters are independent; the trainer happens to call them the other way round)
+    #[serde(default)]
+    pub setters_swapped: bool,
 }
 
 fn tok_cfg(t: &Tok) -> TokenizerConfig {
@@ -515,6 +519,7 @@ impl Scenario for C08 {
             variations,
             trainer_pattern: rng.chance(0.5),
             poll_after_end: false,
+            setters_swapped: false,
             consumer_pause: if rng.chance(0.2) { Some((rng.below(3) as u8, rng.range(520_000, 6_000_000) as u32)) } else { None },
         }
         .with_batch(&mut rng)
@@ -676,6 +681,12 @@ impl Scenario for C08 {
                 true
             });
         }
+        if self.setters_swapped {
+            push(&|c| {
+                c.setters_swapped = false;
+                true
+            });
+        }
         if self.trainer_pattern {
             push(&|c| {
                 c.trainer_pattern = false;
@@ -804,6 +815,7 @@ impl C08 {
         self.padded_item_size = rng.chance(0.4);
         self.batch_limit = if self.padded_item_size { rng.usize(20, 300) } else { rng.usize(0, 6) };
         self.poll_after_end = rng.chance(0.3);
+        self.setters_swapped = rng.chance(0.4);
         self
     }
 
@@ -891,6 +903,10 @@ impl Exec<'_> {
         if pre_iter {
             self.stats.fault("iter_called_before_set_epoch_and_fast_forward");
         }
+        let swapped = sc.setters_swapped && !inst.label.starts_with('R');
+        if swapped && inst.ff > 0 {
+            self.stats.fault("set_fast_forward_called_before_set_epoch");
+        }
         let poll_again = sc.poll_after_end && !inst.label.starts_with('R');
         if poll_again {
             self.stats.fault("next_called_again_after_the_end_of_the_epoch");
@@ -936,8 +952,13 @@ impl Exec<'_> {
                 let _ = drv.min_items();
                 rt::log(Kind::Fault, 7, 0);
             }
-            drv.set_epoch(epoch);
-            drv.set_fast_forward(ff);
+            if swapped {
+                drv.set_fast_forward(ff);
+                drv.set_epoch(epoch);
+            } else {
+                drv.set_epoch(epoch);
+                drv.set_fast_forward(ff);
+            }
             if let Err(e) = drv.iter() {
                 slot2.lock().unwrap().1 = Some(format!("iter: {e:#}"));
                 return;
